@@ -24,6 +24,7 @@ import (
 type scenario struct {
 	Pipe   string `json:"pipe"` // none | delim-text | lenfield
 	Kind   string `json:"kind"` // bytes vec buffer stringsreader reader-small reader-large string
+	Kind2  string `json:"kind2,omitempty"` // odd-numbered writers send this type instead (mixed traffic)
 	Size   int    `json:"size"`
 	Async  int    `json:"async"` // queue size, 0 = synchronous
 	N      int    `json:"n"`     // concurrent writers
@@ -48,7 +49,11 @@ func body(w, size int) []byte {
 
 func mkMsg(sc scenario, w int) interface{} {
 	b := body(w, sc.Size)
-	switch sc.Kind {
+	kind := sc.Kind
+	if sc.Kind2 != "" && w%2 == 1 {
+		kind = sc.Kind2
+	}
+	switch kind {
 	case "bytes":
 		return b
 	case "vec":
@@ -152,6 +157,7 @@ func run(sc scenario, choose func(step int, en []*sched.Thread, last *sched.Thre
 	tr := &mock.Transport{}
 	if sc.Async == 0 {
 		tr.Yield = func(p string) { s.Yield(p, nil) }
+		tr.SplitWritev = true // the connection's vectored write is not atomic: only the channel's write lock keeps a message together
 	}
 	ch, _ := build(sc, tr, &sched.Executor{S: s})
 	for w := 0; w < sc.N; w++ {
@@ -298,11 +304,21 @@ func main() {
 		if sc.Pipe == "none" && sc.Kind != "reader-small" && rng.Chance(8) {
 			sc.Size = []int{65536, 65537, 140000}[rng.Intn(3)] // around and beyond the largest pooled size class
 		}
+		if sc.Pipe == "none" && sc.Size <= 1024 && rng.Chance(25) {
+			sc.Kind2 = kinds[rng.Intn(len(kinds))] // mixed traffic: e.g. a vector write next to a small reader
+		}
+		if sc.Async == 0 && sc.Pipe == "none" && rng.Chance(35) {
+			// the pair that only the write lock keeps apart on a connection with a non-atomic vectored write
+			sc.Kind, sc.Kind2 = "vec", []string{"reader-small", "reader-small", "bytes", "stringsreader"}[rng.Intn(4)]
+			if sc.Size > 1024 {
+				sc.Size = 1000
+			}
+		}
 		switch rng.Intn(12) {
 		case 0:
-			sc.Kind, sc.Size, sc.Pipe = "reader-large", 2500, "none"
+			sc.Kind, sc.Size, sc.Pipe, sc.Kind2 = "reader-large", 2500, "none", ""
 		case 1:
-			sc.Kind, sc.Pipe, sc.Size = "string", "delim-text", 8
+			sc.Kind, sc.Pipe, sc.Size, sc.Kind2 = "string", "delim-text", 8, ""
 		}
 		meta.Count("kind", sc.Kind)
 		meta.Count("pipeline", sc.Pipe)
